@@ -179,14 +179,15 @@ def styleattrs_to_colorful(attrs):
             accessor = 'prettyprinterCurrFg'
         if attrs['bgcolor']:
             colorful.update_palette({'prettyprinterCurrBg': attrs['bgcolor']})
-            accessor += '_on_prettyprinterCurrBg'
+            # 'fg_on_bg', or just 'on_bg' when there is no foreground.
+            accessor += ('_' if accessor else '') + 'on_prettyprinterCurrBg'
         c &= getattr(colorful, accessor)
     if attrs['bold']:
         c &= colorful.bold
     if attrs['italic']:
         c &= colorful.italic
     if attrs['underline']:
-        c &= colorful.underline
+        c &= colorful.underlined
     return c
 
 
